@@ -130,7 +130,87 @@ POINTER_BASES = {'data_', 'PINS', 'MOVE_LIST', 'TEMP_MOVE_LIST', 'entry', '_boar
                  '_stack_info', '_counter_move_table', 'previous_moves'}
 
 
-def _pointer_escapes(ctx, p, funcs):
+def _window(ctx, p, f, n, inner, iv):
+    """`T* const b = ARR[row];  T* const e = b + k;  T* const r = std::find(b, e, v);  if (r != e) *r ...` — a window over one
+    row of a fixed-extent array: k within [0, extent], the algorithm's result lies in [b, e], and it is dereferenced only where it
+    differs from e. Returns True when every use of the three pointers is of this kind (None: not this shape)."""
+    par = f.parent(n)
+    while par is not None and par['k'] in ('ImplicitCastExpr', 'ParenExpr'):
+        par = f.parent(par)
+    if par is None or par['k'] != 'VarDecl' or 'const' not in (par.get('t') or '').split('*')[-1]:
+        return None
+    m = re.search(r'\[(\d+)\]$', (inner.get('t') or ''))
+    if not m:
+        return None
+    ext = int(m.group(1))
+    bid = par['id']
+
+    def uses(vid):
+        return [x for x in f.all_nodes() if x['k'] == 'DeclRefExpr' and (x.get('ref') or {}).get('k') == 'Local' and x['ref'].get('id') == vid]
+
+    def up(x):
+        q = f.parent(x)
+        while q is not None and q['k'] in ('ImplicitCastExpr', 'ParenExpr'):
+            x, q = q, f.parent(q)
+        return x, q
+    ends, results = set(), {}
+    pending = []
+    for u in uses(bid):
+        x, q = up(u)
+        if q is None:
+            return None
+        if q['k'] == 'BinaryOperator' and q.get('op') == '+' and kids(q)[0] is x:
+            x2, q2 = up(q)
+            if q2 is not None and q2['k'] == 'VarDecl' and 'const' in (q2.get('t') or '').split('*')[-1]:
+                itv = iv.eval(f, kids(q)[1], {}, 0)
+                if itv is None or itv[0] < 0 or itv[1] > ext:
+                    return False
+                ends.add(q2['id'])
+                continue
+            return None
+        if q['k'] == 'CallExpr' and (q.get('callee') or {}).get('n', '').startswith('std::find') and kids(q)[1] is x:
+            pending.append(q)
+            continue
+        if q['k'] == 'BinaryOperator' and q.get('op') in ('==', '!='):
+            continue
+        return None
+    for call in pending:
+        e2 = strip_casts(kids(call)[2])
+        if (e2.get('ref') or {}).get('id') not in ends:
+            return None
+        x2, q2 = up(call)
+        if q2 is None or q2['k'] != 'VarDecl' or 'const' not in (q2.get('t') or '').split('*')[-1]:
+            return None
+        results[q2['id']] = e2['ref']['id']
+    for eid in ends:
+        for u in uses(eid):
+            x, q = up(u)
+            if q is None or not ((q['k'] == 'CallExpr' and q in pending and kids(q)[2] is x) or
+                                 (q['k'] == 'BinaryOperator' and q.get('op') in ('==', '!='))):
+                return None
+    for rid, eid in results.items():
+        for u in uses(rid):
+            x, q = up(u)
+            if q is None:
+                return None
+            if q['k'] == 'BinaryOperator' and q.get('op') in ('==', '!='):
+                continue
+            if q['k'] == 'UnaryOperator' and q.get('op') == '*':
+                ok = False
+                for c_, t_ in guard_facts(f, q):
+                    c0 = strip_casts(c_)
+                    if c0['k'] == 'BinaryOperator' and c0.get('op') in ('==', '!='):
+                        ids = sorted((strip_casts(y).get('ref') or {}).get('id', -1) for y in kids(c0))
+                        if ids == sorted([rid, eid]) and (c0['op'] == '!=') == t_:
+                            ok = True
+                if not ok:
+                    return False
+                continue
+            return None
+    return bool(ends) and bool(results)
+
+
+def _pointer_escapes(ctx, p, funcs, iv=None):
     n_sites = 0
     for f in funcs:
         if f.body is None:
@@ -176,6 +256,12 @@ def _pointer_escapes(ctx, p, funcs):
             n_sites += 1
             names = [short(x['ref']['n']) for x in walk(inner) if x.get('ref', {}).get('k') in ('Field', 'Global', 'StaticMember', 'Local', 'Parm')]
             if not any(nm in POINTER_BASES for nm in names):
+                w = _window(ctx, p, f, n, inner, iv) if iv is not None else None
+                if w is not None:
+                    ctx.ob('C10.PTR.window', '%s:%s' % (short(f.name), canon(f, inner, inline=False)), w,
+                           'a window [b, b+k) over one row of a fixed-extent array with k within the extent; the position returned by '
+                           'the algorithm is dereferenced only where it differs from the end', site=f.loc(n))
+                    continue
                 raise AnalysisBroken('C10: a pointer into %s is formed at %s; no rule bounds the accesses made through it'
                                      % (canon(f, inner, inline=False), f.loc(n)))
     ctx.floor('C10.PTR.escapes', n_sites, 30, 'pointers formed into fixed-extent buffers')
@@ -220,7 +306,7 @@ def check(ctx):
     ctx.assume('C09.R1/R2: _current_depth <= _search_depth <= MAX_DEPTH')
 
     funcs = [f for f in p.repo_funcs('engine/')]
-    _pointer_escapes(ctx, p, funcs)
+    _pointer_escapes(ctx, p, funcs, iv)
     called = set()
     for f in funcs:
         for n, fid, nm in f.calls():
